@@ -9,7 +9,8 @@ import PebblesVerif.Driver.SchemaOut
 `c16.resolve` — `Model.Introspect.resolve` with the map orders the harness observed or chose;
 `c16.spec`    — `Spec.select vars sel (Spec.introspect S)`;
 `c16.full`    — `Spec.introspect S`;
-`c15.rebuild` — `Model.Remote.rebuildResp` on the downstream answer. -/
+`c15.rebuild` — `Model.Remote.rebuildResp` on the downstream answer;
+`c16.stack`   — `rebuild (resolve S standardQuery)`. -/
 namespace PebblesVerif.Driver.DIntrospect
 open Lean PebblesVerif.Driver PebblesVerif
 
@@ -35,6 +36,16 @@ def handle : Handler
   | "c16.full", j =>
     let S := parseSchema ((getObj? j "schema").getD .null)
     some (obj [("result", ofJ (Spec.introspect S))])
+  | "c16.stack", j =>
+    -- the closure: a second gateway introspecting this one (model ∘ model)
+    let S := parseSchema ((getObj? j "schema").getD .null)
+    let sel := (getArr j "sel").map parseISel
+    match Model.Introspect.resolve S S.types S.directives [] sel with
+    | none => some (obj [("outcome", "error"), ("err", "not-introspection")])
+    | some ans =>
+      match Model.Remote.rebuildResp [ans] with
+      | .ok r => some (obj [("outcome", "ok"), ("schema", schemaOut r.schema), ("unknownKind", strArr r.unknownKind)])
+      | .error e => some (obj [("outcome", if e == .panic then "panic" else "error"), ("err", e.tag)])
   | "c15.rebuild", j =>
     let resp := (getArr j "resp").map toJ
     match Model.Remote.rebuildResp resp with
